@@ -44,7 +44,21 @@ SEED_DIFFS = ["fewer-terminals", "no-terminals", "fewer-holes", "one-more-hole",
               "layer-edited-in-place:london_lambda", "layer-edited-in-place:thickness", "layer-edited-in-place:coherence_length",
               # the same REGION described by another vertex array (finer sampling; same vertices starting elsewhere): another
               # mesh, so the seed's arrays belong to other sites
-              "film-resampled", "film-rolled"]
+              "film-resampled", "film-rolled",
+              # the SAME device definition (every polygon, the layer, the name, the probe points are equal), another MESH: the
+              # seed's arrays are indexed by the sites and edges of a mesh that is not the one being simulated.
+              #   remeshed:<what>                    the seed's device is a separate object, meshed differently before the seed is computed
+              #   remeshed-in-place:<what>           ONE device object: the seed is computed on it, then it is meshed again and simulated
+              #   seed-device-remeshed-in-place:<w>  the Device object the seed itself holds is meshed again and simulated (seed.device is device)
+              # <what>: max_edge_length / min_points (another number of sites); smooth=N (the same triangulation relaxed further:
+              # same number of sites, other coordinates); renumbered (the same sites and triangles, listed in another order)
+              "remeshed:max_edge_length", "remeshed:min_points", "remeshed:smooth=10", "remeshed:smooth=1", "remeshed:renumbered",
+              "remeshed-in-place:max_edge_length", "remeshed-in-place:smooth=10", "seed-device-remeshed-in-place:max_edge_length"]
+MESH_HISTORIES = ("remeshed", "remeshed-in-place", "seed-device-remeshed-in-place")
+# well-posed controls (class "none"): no seed; a seed computed on the simulated Device object itself; a seed computed on a
+# separately built equal device meshed with the same arguments; the seed of the first kind saved, loaded from its file and
+# resumed on the device stored in that file.  None of them may be rejected
+CONTROLS = ["no-seed", "seed:same-object", "seed:equal-device-same-mesh", "seed:loaded-from-file"]
 
 
 def seed_device(tdgl, dev, how):
@@ -85,6 +99,42 @@ def seed_device(tdgl, dev, how):
     return d
 
 
+def remesh(tdgl, d, what):
+    """Mesh the device `d` again, differently from devices.make / seed_device (max_edge_length=0.8, smooth=0).
+    (The values are ones for which the package can mesh and simulate all three devices: on `barhole`, min_points = 2n gives
+    "Malformed Voronoi cell" and smooth = 3 or 40 a singular operator; the check's guard reports a seed that was never made.)"""
+    if what == "max_edge_length":
+        d.make_mesh(max_edge_length=0.5, smooth=0)
+    elif what == "min_points":
+        d.make_mesh(max_edge_length=0.8, min_points=3 * len(d.mesh.sites), smooth=0)
+    elif what.startswith("smooth="):
+        d.make_mesh(max_edge_length=0.8, smooth=int(what.split("=")[1]))
+    elif what == "renumbered":
+        # the same sites and the same triangles, numbered in the opposite order
+        from tdgl.finite_volume.mesh import Mesh
+        sites, elements = np.array(d.mesh.sites), np.array(d.mesh.elements)
+        n = len(sites)
+        d.mesh = Mesh.from_triangulation(sites[::-1].copy(), (n - 1 - elements).copy())
+    else:
+        raise core.MachineryFailure(f"C19: unknown re-meshing {what!r}")
+
+
+def mesh_arrays(d):
+    """Raw copies of the site coordinates and triangles of the mesh a device holds NOW."""
+    return np.array(d.mesh.sites, dtype=float), np.array(d.mesh.elements, dtype=np.int64)
+
+
+def mesh_facts(seed_arrays, dev_arrays, npsi):
+    """What the harness itself can say about two meshes from their raw arrays (never Device.__eq__)."""
+    (s_sites, s_el), (d_sites, d_el) = seed_arrays, dev_arrays
+    same_count = s_sites.shape == d_sites.shape
+    same_sites = bool(same_count and np.array_equal(s_sites, d_sites))
+    same_el = bool(s_el.shape == d_el.shape and np.array_equal(s_el, d_el))
+    return {"seed_sites": int(len(s_sites)), "dev_sites": int(len(d_sites)), "seed_psi_len": int(npsi), "same_count": bool(same_count),
+            "same_sites": same_sites, "same_elements": same_el,
+            "max_shift": float(np.abs(s_sites - d_sites).max()) if same_count else None}
+
+
 def seed_currents(d):
     names = [t.name for t in d.terminals]
     if len(names) < 2:
@@ -113,11 +163,12 @@ def matrix(ctx):
                             continue
                         if cls in ("options", "options_reused") and v in ENV_DEPENDENT and not _missing(ENV_DEPENDENT[v]):
                             continue            # that back end is installed here: the options are usable
-                        out.append(dict(cls=cls, dev=d, mag=mag, out=outm, variant=v))
+                        out.append(dict(cls=cls, dev=d, mag=mag, out=outm, variant=v, **({"how": SEED_DIFFS[v]} if cls == "seed" else {})))
     # well-posed controls: the same pipeline must NOT reject them (and then files do appear)
     for d in devs:
         for outm in ("temp", "path"):
-            out.append(dict(cls="none", dev=d, mag=0.0, out=outm, variant=0))
+            for v, how in enumerate(CONTROLS):
+                out.append(dict(cls="none", dev=d, mag=0.0, out=outm, variant=v, **({"how": how} if v else {})))
     if ctx.quick:
         import random
         rnd = random.Random(ctx.seed)
@@ -165,6 +216,7 @@ def illposed_run(tdgl, p, base_tmp=None):
     old_tempdir = tempfile.tempdir
     phase = "build"
     result, exc = "pending", ""
+    mesh_info = None
     try:
         os.chdir(sandbox)
         tempfile.tempdir = str(tempd)
@@ -232,7 +284,12 @@ def illposed_run(tdgl, p, base_tmp=None):
                 # polygons are a subset), no terminal at all, one more hole, another layer, another name, other probe points
                 how = SEED_DIFFS[v % len(SEED_DIFFS)]
                 edit = how.split(":")[1] if how.startswith("layer-edited-in-place") else None
-                other = seed_device(tdgl, dev, "same" if edit else how)
+                history, _, what = how.partition(":")
+                mesh_how = what if history in MESH_HISTORIES else None
+                other = seed_device(tdgl, dev, "same" if (edit or mesh_how) else how)
+                if history == "remeshed":
+                    remesh(tdgl, other, mesh_how)
+                seed_arrays = mesh_arrays(other)                     # the mesh the seed is computed on, as raw arrays
                 o2 = tdgl.SolverOptions(**dict(kw, output_file=None))
                 tempfile.tempdir = old_tempdir
                 seed_dir = tempfile.mkdtemp(prefix="seed", dir=base_tmp)
@@ -254,6 +311,27 @@ def illposed_run(tdgl, p, base_tmp=None):
                             other.make_mesh(max_edge_length=0.8 * factor, smooth=0)
                         dev = other
                         solve_kw["terminal_currents"] = seed_currents(other)
+                    elif mesh_how:
+                        # same device definition, another mesh.  The guard is evaluated by the check from these facts
+                        # (raw arrays copied by the harness when the seed was computed and when the solver is called)
+                        if history == "remeshed-in-place":
+                            remesh(tdgl, other, mesh_how)
+                            dev = other
+                        elif history == "seed-device-remeshed-in-place":
+                            remesh(tdgl, seed.device, mesh_how)
+                            dev = seed.device
+                        if dev is not devices.make(tdgl, p["dev"], probes=2):
+                            solve_kw["terminal_currents"] = seed_currents(dev)
+                        mesh_info = mesh_facts(seed_arrays, mesh_arrays(dev), len(np.asarray(seed.tdgl_data.psi)))
+                        mesh_info.update(how=how, same_definition=bool(sig(seed.device) == sig(dev)),
+                                         seed_device_is_device=bool(seed.device is dev))
+                        # the problem is ill-posed BECAUSE of the seed: without it the (re-meshed) device is accepted
+                        try:
+                            TDGLSolver(dev, tdgl.SolverOptions(**kw), **solve_kw)
+                            mesh_info["accepted_without_seed"] = True
+                        except Exception as e0:
+                            mesh_info["accepted_without_seed"] = False
+                            mesh_info["without_seed_exc"] = type(e0).__name__ + ": " + str(e0)[:120]
                     elif sig(seed.device) == sig(dev):
                         raise core.MachineryFailure(f"C19: the seed device ({how}) does not differ from the simulated device (vacuous)")
                 finally:
@@ -261,6 +339,31 @@ def illposed_run(tdgl, p, base_tmp=None):
                     os.chdir(sandbox)
                     tempfile.tempdir = str(tempd)
                 solve_kw["seed_solution"] = seed
+            elif cls == "none" and v:
+                # well-posed controls with a seed solution of the SAME mesh: they must run
+                how = CONTROLS[v]
+                own = seed_device(tdgl, dev, "same")                 # the device that is simulated (never the cached one)
+                src = own if how != "seed:equal-device-same-mesh" else seed_device(tdgl, dev, "same")
+                seed_arrays = mesh_arrays(src)
+                tempfile.tempdir = old_tempdir
+                seed_dir = tempfile.mkdtemp(prefix="seed", dir=base_tmp)
+                try:
+                    os.chdir(seed_dir)
+                    DH.__enter__, DH.__exit__ = orig_enter, orig_exit
+                    seed = tdgl.solve(src, tdgl.SolverOptions(**dict(kw, output_file="seed.h5")), applied_vector_potential=0.1,
+                                      terminal_currents=seed_currents(src))
+                    if how == "seed:loaded-from-file":
+                        seed = tdgl.Solution.from_hdf5(os.path.join(seed_dir, "seed.h5"))
+                        own = seed.device
+                finally:
+                    DH.__enter__, DH.__exit__ = w_enter, w_exit
+                    os.chdir(sandbox)
+                    tempfile.tempdir = str(tempd)
+                dev = own
+                solve_kw["terminal_currents"] = seed_currents(dev)
+                solve_kw["seed_solution"] = seed
+                mesh_info = mesh_facts(seed_arrays, mesh_arrays(dev), len(np.asarray(seed.tdgl_data.psi)))
+                mesh_info.update(how=how, same_definition=True, seed_device_is_device=bool(seed.device is dev))
             elif cls == "ashape":
                 # a vector potential of the wrong shape, including shapes that numpy would happily broadcast
                 shapes = ["n+1,3", "n", "n,1", "1,3", "3", "0d", "n,3,1", "3,n"]
@@ -372,4 +475,4 @@ def illposed_run(tdgl, p, base_tmp=None):
         os.chdir(cwd)
         shutil.rmtree(sandbox, ignore_errors=True)
     return {"cfg": {"k": 2, "solveT": 1, "skipT": 0, "out": out_mode, "foreign": [], "bad": cls},
-            "coarse": True, "ev": events, "info": {"exc": exc, "phase": phase}}
+            "coarse": True, "ev": events, "info": {"exc": exc, "phase": phase, "mesh": mesh_info}}
